@@ -143,10 +143,12 @@ macro_rules! float_ops {
         }
     }};
 }
-fn run_float<F: Fixed>(op: &str, a: &[&str]) -> String where F::Bits: Prim, f32: PartialOrd<F>, f64: PartialOrd<F> {
+fn run_float<F: Fixed>(op: &str, a: &[&str]) -> String where F::Bits: Prim, f32: PartialOrd<F>, f64: PartialOrd<F>, half::f16: PartialOrd<F>, half::bf16: PartialOrd<F> {
     match arg(a, 1) {
         "f32" => float_ops!(F, f32, u32, op, a),
         "f64" => float_ops!(F, f64, u64, op, a),
+        "f16" => float_ops!(F, half::f16, u16, op, a),
+        "bf16" => float_ops!(F, half::bf16, u16, op, a),
         _ => "UNKNOWN".to_string(),
     }
 }
@@ -172,20 +174,26 @@ fn tfh(r: (bool, u128, i8, bool)) -> String {
     if r.0 { format!("1,{},{},{}", r.1 as i128, r.2, b01(r.3)) } else { format!("0,{},{},{}", r.1, r.2, b01(r.3)) }
 }
 
-fn hook(op: &str, s: bool, n: u32, a: &[&str]) -> String {
+fn hook(op: &str, s: bool, n: u32, f: u32, a: &[&str]) -> String {
     match op {
         // h_to_fixed_helper s n 0 x srcFrac dstFrac dstInt
         "h_to_fixed_helper" => tfh(hooks::to_fixed_helper(s, n, pat(arg(a, 0)), arg_i32(a, 1), arg_u32(a, 2), arg_u32(a, 3))),
-        // h_to_float_kind 0 <32|64> 0 bits dstFrac dstInt
+        // h_to_float_kind 0 <32|64> 0 bits dstFrac dstInt;  half formats: `0 16 11` = f16, `0 16 8` = bf16 (the frac field carries PREC)
         "h_to_float_kind" => {
-            let k = if n == 32 { hooks::to_float_kind_f32(arg(a, 0).parse().unwrap_or_else(|_| bad()), arg_u32(a, 1), arg_u32(a, 2)) }
+            let k = if n == 16 && f == 11 { hooks::to_float_kind_f16(arg(a, 0).parse().unwrap_or_else(|_| bad()), arg_u32(a, 1), arg_u32(a, 2)) }
+                    else if n == 16 && f == 8 { hooks::to_float_kind_bf16(arg(a, 0).parse().unwrap_or_else(|_| bad()), arg_u32(a, 1), arg_u32(a, 2)) }
+                    else if n == 16 { bad() }
+                    else if n == 32 { hooks::to_float_kind_f32(arg(a, 0).parse().unwrap_or_else(|_| bad()), arg_u32(a, 1), arg_u32(a, 2)) }
                     else { hooks::to_float_kind_f64(arg(a, 0).parse().unwrap_or_else(|_| bad()), arg_u32(a, 1), arg_u32(a, 2)) };
             match k.kind { 0 => "nan".into(), 1 => format!("inf,{}", b01(k.neg)), _ => format!("fin,{},{}", b01(k.neg), tfh(k.conv)) }
         }
         // h_from_to_float 0 <32|64> 0 neg abs fracBits intBits
         "h_from_to_float" => {
             let neg = arg(a, 0) == "1"; let abs = pat(arg(a, 1));
-            if n == 32 { format!("{}", hooks::from_to_float_helper_f32(neg, abs, arg_u32(a, 2), arg_u32(a, 3))) }
+            if n == 16 && f == 11 { format!("{}", hooks::from_to_float_helper_f16(neg, abs, arg_u32(a, 2), arg_u32(a, 3))) }
+            else if n == 16 && f == 8 { format!("{}", hooks::from_to_float_helper_bf16(neg, abs, arg_u32(a, 2), arg_u32(a, 3))) }
+            else if n == 16 { bad() }
+            else if n == 32 { format!("{}", hooks::from_to_float_helper_f32(neg, abs, arg_u32(a, 2), arg_u32(a, 3))) }
             else { format!("{}", hooks::from_to_float_helper_f64(neg, abs, arg_u32(a, 2), arg_u32(a, 3))) }
         }
         _ => "UNKNOWN".to_string(),
@@ -197,7 +205,7 @@ include!("../ext_from.rs");
 fn main() {
     serve(|op, s, n, f, a| {
         if let Some(r) = ext_from_op(op, s, n, f, a) { r }
-        else if op.starts_with("h_") { hook(op, s, n, a) }
+        else if op.starts_with("h_") { hook(op, s, n, f, a) }
         else if op == "cvt_from" || op == "cvt_lossy" {
             let s2 = arg(a, 1) == "1"; let n2 = arg_u32(a, 2); let f2 = arg_u32(a, 3);
             if op == "cvt_from" { sfx_dispatch_from!(s, n, f, s2, n2, f2, run_from(a)) } else { sfx_dispatch_lossy!(s, n, f, s2, n2, f2, run_lossy(a)) }
